@@ -316,7 +316,7 @@ def run(tier: str) -> int:
               "values so float sums are exact; distinct = distinct op JSON. Search: every aggregation "
               "node of the default graph vs. an independent per-group / per-pointer reference on random "
               "valid populations; toy systems for the precedence auto < built-in < user.")
-    common.build_and_audit(r, ["C11", "C11Sim"], leanchecker=not quick)
+    common.build_and_audit(r, ["C11", "C11Sim", "SimSpecs"], leanchecker=not quick)
     rnd = common.rng("C11")
     # corpus first
     cases = agg_cases(rnd, 300 if quick else 6000)
